@@ -255,7 +255,11 @@ def wait_result(path, name, max_wait=20):
             ps = l.split(' ')
             if len(ps) != 3: continue
             hx = ps[2].strip()
-            res[int(ps[1])] = 'TRAP' if hx == 'TRAP' else bytes.fromhex(hx)
+            try:
+                # an input outside the preconditions (e.g. an out-of-range index) may have scribbled over the driver's stack: ignore malformed lines
+                res[int(ps[1])] = 'TRAP' if hx == 'TRAP' else bytes.fromhex(hx)
+            except (ValueError, IndexError):
+                continue
     if os.path.exists(path + '.fail') and any(r is None for r in res):
         return open(path + '.fail').read()
     return inputs, res
